@@ -15,6 +15,7 @@ STAGES = [
 # the two coordinates, so the observed value is 0; 4 units is what any formula that "agrees with the coordinate arrays"
 # up to rounding stays below, while an off-by-one index or a missing wrap gives >= 1e9 units (seen: 1e13..1e14).
 THRESHOLDS = {
+    "copy_assigned_grid_consistent_after_source_destroyed": 0.5,
     "construction_survives": 0.5,            # constructor / coarseningGrid ran to completion in a forked child
     "accessors_match_coordinates": 0.5,      # nr, ntheta, numberOfNodes, radius(i), theta(j), radii(), angles()
     "index_is_bijection": 0.5,               # index(i,j) in 0..N-1, no duplicate, onto
